@@ -89,6 +89,7 @@ type burst struct {
 	valCtr atomic.Int64
 	rngCtr atomic.Uint64
 	execPanics atomic.Int64
+	emptyBulk  atomic.Pointer[string]
 }
 
 func (b *burst) now() int64 { return int64(time.Since(b.base)) }
@@ -109,6 +110,10 @@ func (l burstLoader) run(bulk, reload bool, keys []int) (map[int]int, error) {
 	in.Trigger = in.Enter
 	if l.callT != nil {
 		in.Trigger = atomic.LoadInt64(l.callT)
+	}
+	if bulk && len(keys) == 0 {
+		msg := fmt.Sprintf("the bulk loader (reload=%v, caller %d) was invoked with an empty key list: nothing was missing that this call had to load", reload, l.caller)
+		b.emptyBulk.CompareAndSwap(nil, &msg)
 	}
 	r := core.NewRng(b.rnd())
 	in.Out = r.Pick(b.cfg.OutW)
@@ -133,6 +138,14 @@ func (l burstLoader) run(bulk, reload bool, keys []int) (map[int]int, error) {
 		if bulk && r.Chance(1, 5) {
 			k := b.cfg.Keys + 50 + r.Intn(4) // a volunteered key outside the requested domain
 			res[k] = int(5_000_000_000 + b.valCtr.Add(1))
+		}
+		if bulk && r.Chance(1, 4) {
+			// a volunteered key inside the domain: it may be one the caller asked the cache for but
+			// was not asked to load, because another call is loading it right now
+			k := r.Intn(b.cfg.Keys)
+			if _, asked := res[k]; !asked {
+				res[k] = int(5_000_000_000 + b.valCtr.Add(1))
+			}
 		}
 	}
 	b.mu.Lock()
@@ -401,6 +414,9 @@ func (b *burst) collectRefresh() {
 // judgeBurst applies the C08 oracles.
 func (b *burst) judgeBurst() (violation string, overlaps int, waiters int) {
 	cfg := &b.cfg
+	if p := b.emptyBulk.Load(); p != nil {
+		return *p, 0, 0
+	}
 	// (1) single flight
 	type span struct {
 		in *inv
